@@ -43,6 +43,12 @@ def enabled(events, maxnest):
         out += [{"k": "cpp_attr", "doc": d, "default": "v"} for d in D]
     out += [{"k": "add_test", "doc": d} for d in D] + [{"k": "option", "doc": d} for d in D]
     out += [{"k": "set", "doc": 1}, {"k": "generic", "doc": 1}]
+    # a cmake_parse_arguments call (marks the innermost open definition) and a second definition of an already
+    # defined name (e.g. in the other branch of an if)
+    if any(k in ("function", "macro") for k in kinds):
+        out += [{"k": "cmake_parse_arguments"}]
+    if len(st) < maxnest:
+        out += [{"k": "function", "doc": d, "name": "same_fn", "params": ["p"]} for d in D]
     if st:
         out.append({"k": "close"})
     return out
@@ -180,8 +186,14 @@ def judge(events, cfg, text, base_index):
             if len(base) == 1 and base[0] != got[0]:
                 msgs.append(f"documented-altered: entry of documented {k} {nm} differs from its default rendering: "
                             f"{got[0][0]!r} vs {base[0][0]!r}")
-        elif k in INCLUDE_KINDS and not cfg["include_undocumented_" + k]:
-            if names.get(nm, 0) and k != "cpp_constructor":
+        elif k in INCLUDE_KINDS and not cfg["include_undocumented_" + k] and k != "cpp_constructor":
+            # entries carrying this name may only stem from the commands of that name that are to be shown
+            allowed = 0
+            for j, e2 in enumerate(events):
+                if e2["k"] in INCLUDE_KINDS and name_of(e2, j) == nm:
+                    if e2.get("doc") or cfg["include_undocumented_" + e2["k"]]:
+                        allowed += 1
+            if names.get(nm, 0) > allowed:
                 msgs.append(f"undocumented-shown: undocumented {k} {nm} has an entry although its option is off")
     return msgs
 
